@@ -1135,7 +1135,56 @@ func PathAvoidingDeep(fn *ssa.Function, from ssa.Instruction, edges map[Edge]boo
 		MaxWalkStates = 30000
 	}
 	defer func() { MaxWalkStates = savedMax }()
-	WalkDeep(2, nil, func() {
+	// only functions in which the target or the avoided instruction can occur (directly or one call
+	// further down) are entered: the others cannot change the answer
+	relevant := map[*ssa.Function]int{}
+	var isRelevant func(g *ssa.Function, d int) bool
+	isRelevant = func(g *ssa.Function, d int) bool {
+		if v, ok := relevant[g]; ok {
+			return v == 1
+		}
+		relevant[g] = 2
+		hit := false
+		saved := ParamSubst
+		ParamSubst = nil
+		AllInstrs(g, func(in ssa.Instruction) {
+			if hit {
+				return
+			}
+			if _, isRet := in.(*ssa.Return); isRet {
+				return
+			}
+			if target(in) || (avoid != nil && avoid(in)) {
+				hit = true
+			}
+		})
+		ParamSubst = saved
+		if !hit {
+			for _, lit := range g.AnonFuncs {
+				if isRelevant(lit, d) {
+					hit = true
+				}
+			}
+		}
+		if !hit && d < 2 {
+			AllInstrs(g, func(in ssa.Instruction) {
+				if hit {
+					return
+				}
+				if call, ok := in.(*ssa.Call); ok {
+					if cal := call.Call.StaticCallee(); cal != nil && len(cal.Blocks) > 0 && inModule(cal) && isRelevant(cal, d+1) {
+						hit = true
+					}
+				}
+			})
+		}
+		if hit {
+			relevant[g] = 1
+		}
+		return hit
+	}
+	skip := func(g *ssa.Function) bool { return !isRelevant(g, 0) }
+	WalkDeep(2, skip, func() {
 		walkDescend.Up = DeepUp
 		on := func(in ssa.Instruction, f NilFacts) {
 			if !found && target(in) {
